@@ -43,6 +43,11 @@ func wire(e protocol.EUI) []byte {
 }
 
 // seqHistory runs one sequential history on a fresh rig and on the Lean model.
+type forcedUplink struct {
+	d         *simDev
+	confirmed bool
+}
+
 type seqHistory struct {
 	c      *ctx
 	rig    *pipeRig
@@ -218,6 +223,7 @@ func runPipeSeq(c *ctx) error {
 		copy(gwEUI.Octets[:], r.Bytes(8))
 		nev := 8 + r.Intn(22)
 		var lastFrames [][]byte
+		var forcedUps []forcedUplink
 		extended := false
 		for ev := 0; ev < nev && !h.failed; ev++ {
 			if h.search && !extended {
@@ -229,6 +235,18 @@ func runPipeSeq(c *ctx) error {
 			d := h.devs[r.Intn(len(h.devs))]
 			h.ts += int64(1 + r.Intn(5))
 			dr := dataRates[r.Intn(len(dataRates))]
+			// after an over-long message was queued: a confirmed uplink and two unconfirmed ones of that device at
+			// the slowest data rate (the message leaves in pieces; the acknowledgement rides on the first only)
+			var forcedUp *forcedUplink
+			if len(forcedUps) > 0 {
+				forcedUp = &forcedUps[0]
+				forcedUps = forcedUps[1:]
+				if forcedUp.d.joined {
+					d, dr = forcedUp.d, "SF12BW125"
+				} else {
+					forcedUp = nil
+				}
+			}
 			rssi, snr, freq := int32(r.Intn(120)-130), float32(r.Intn(80)-40)/4, float32(868.1)
 			clock := r.Uint32()
 			radio := radioTok(rssi, snr, freq) + "/" + dr
@@ -256,10 +274,15 @@ func runPipeSeq(c *ctx) error {
 				h.trace = append(h.trace, pipeEvent{Kind: kind, Lean: req, Frame: hx.H(raw)})
 				return before, req, nil
 			}
-			switch ek := r.Intn(20); {
+			ek := r.Intn(20)
+			perturb := r.Intn(8)
+			if forcedUp != nil {
+				ek, perturb = 0, 7
+			}
+			switch {
 			case ek < 9 && d.joined: // valid uplink
 				fc := d.fcntUp
-				switch r.Intn(8) {
+				switch perturb {
 				case 0:
 					fc += 1 + r.Intn(5) // gap (lost frames)
 				case 1:
@@ -270,6 +293,10 @@ func runPipeSeq(c *ctx) error {
 					fc = []int{0, 65534, 65535, 1}[r.Intn(4)]
 				}
 				confirmed := r.Intn(3) == 0
+				if forcedUp != nil {
+					confirmed = forcedUp.confirmed
+					c.res.Count("event=uplink-after-over-long-message")
+				}
 				mt := 2
 				if confirmed {
 					mt = 4
@@ -433,7 +460,8 @@ func runPipeSeq(c *ctx) error {
 				}
 			case ek < 14: // queue a downlink message through the API object
 				n := 1 + r.Intn(60)
-				if r.Intn(10) == 0 {
+				overLong := r.Intn(8) == 0
+				if overLong {
 					n = 55 + r.Intn(200) // around and over the payload limits of the data rates (59 / 123 / 230)
 				}
 				m := queuedMsg{created: h.ts, port: 1 + r.Intn(223), data: r.Bytes(n), ack: r.Intn(2) == 0}
@@ -455,6 +483,9 @@ func runPipeSeq(c *ctx) error {
 				}
 				if err == nil {
 					h.lastCreated[d.eui], h.lastCreatedAny = m.created, m.created
+					if overLong && n > 60 && d.joined && len(forcedUps) == 0 {
+						forcedUps = append(forcedUps, forcedUplink{d, true}, forcedUplink{d, false}, forcedUplink{d, false})
+					}
 					if m.created != h.ts {
 						c.res.Count("submit=shared-creation-stamp")
 					}
